@@ -21,7 +21,54 @@ from kit import need_body, has_call, short, result_expr, mentions_field, dominat
 TABLE = "chalk_engine::table::Table"
 
 
+def cycle_minimums(ck, facts, R):
+    """Shared by C01 / C03: when an SLG table whose strands are all blocked on a cycle is popped, its caller must learn how far down
+    the stack the cycle reaches."""
+    ck.rule(R, "K1: in SolveState::on_no_strands_left (branch `table part of a cycle`) the match on the caller's selected literal hands "
+               "the popped table's cyclic minimums to the caller: Positive -> take_minimums(&cyclic_minimums) - the table's own "
+               "minimums, unchanged; Negative -> take_minimums of Minimums { positive: own clock, negative: minimum_of_pos_and_neg }. "
+               "A caller that is told `positive = its own clock` for a positive dependency believes it heads the cycle and clears the "
+               "strands of everything the cycle reaches - answers of the real head are lost")
+    key = "chalk_engine::logic::SolveState::on_no_strands_left"
+    b = need_body(ck, facts, R, key)
+    if not b:
+        return
+    th = facts.thir(key)
+    ms = [m_ for m_ in enum_matches(th, "chalk_engine::Literal") if has_call(m_, "take_minimums")]
+    if len(ms) != 1:
+        ck.violation(R, "on_no_strands_left:match-on-caller-literal", b.where(), "expected one match on the caller's selected Literal (found %d)" % len(ms))
+        return
+    from kit import let_bound, let_inits, resolve_var
+    cm = let_bound(th, lambda i: has_call(i, "take_strands") is False and any(x.get("k") == "field" and x.get("n") == "cyclic_minimums" for x in walk(i)))
+    inits = let_inits(th)
+    for lit in ("Positive", "Negative"):
+        arms = select_arms(ms[0], V(lit))
+        body_ = ms[0]["arms"][arms[0][0]]["body"]
+        tm = [c for c in calls(body_, "take_minimums")]
+        inst = "on_no_strands_left:%s-dependency" % lit
+        if len(tm) != 1 or len(tm[0].get("args", [])) < 2:
+            ck.violation(R, inst, b.where(ms[0]["arms"][arms[0][0]].get("ln")), "the caller's minimums are not updated (take_minimums) for a %s dependency" % lit)
+            continue
+        arg = resolve_var(tm[0]["args"][1], inits)
+        if lit == "Positive":
+            direct = var_name(peel(tm[0]["args"][1])) in cm or (isinstance(arg, dict) and arg.get("k") == "field" and arg.get("n") == "cyclic_minimums")
+            built = isinstance(arg, dict) and arg.get("k") == "adt" and "Minimums" in str(arg.get("adt", ""))
+            if direct and not built:
+                ck.ok(R, inst, "take_minimums(&cyclic_minimums)")
+            else:
+                ck.violation(R, inst, b.where(tm[0].get("ln")), "a positive dependency must inherit the popped table's cyclic minimums unchanged "
+                             "(found a %s)" % ("constructed Minimums value" if built else "different argument"))
+        else:
+            f = dict((a_, b__) for a_, b__ in (arg.get("fields") or [])) if isinstance(arg, dict) and arg.get("k") == "adt" else {}
+            okn = bool(f) and has_call(f.get("negative"), "minimum_of_pos_and_neg") and any(x.get("k") == "field" and x.get("n") == "clock" for x in walk(f.get("positive")))
+            if okn:
+                ck.ok(R, inst, "Minimums { positive: clock, negative: minimum_of_pos_and_neg }")
+            else:
+                ck.violation(R, inst, b.where(tm[0].get("ln")), "a negative dependency must depend negatively on min(pos, neg) of the popped table")
+
+
 def run(ck, facts, tier):
+    cycle_minimums(ck, facts, "C03.CYCLE-MINIMUMS")
     # ------------------------------------------------------------------ GREEN-CUT
     R = "C03.GREEN-CUT"
     ck.rule(R, "K10 (symbolic evaluation of the guard): SolveState::pursue_answer may discard the remaining strands of the table "
